@@ -180,6 +180,37 @@ pub fn array_product(ex: &Ex, space: &str, slots: &[Item], arity: usize, offer: 
     });
 }
 
+/// Every byte string of length <= maxlen through the given entry points (differential against the
+/// reference reader + rules: the bytes are not assumed to be CBOR at all).
+pub fn short_strings(ex: &Ex, space: &str, eps: &[(Ty, Entry)], maxlen: usize) {
+    ex.bound(space, "all_byte_strings_up_to_len", json!(maxlen));
+    let mut parts: Vec<Option<u8>> = vec![None];
+    parts.extend((0..=255u8).map(Some));
+    par_partitions(ex.rep, parts, |first, l| match first {
+        None => {
+            l.state(0);
+            for (ty, e) in eps {
+                ex.decode(l, space, *ty, *e, &[]);
+            }
+        }
+        Some(f) => {
+            let mut buf = vec![*f; maxlen.max(1)];
+            for len in 1..=maxlen {
+                let n = len - 1;
+                for x in 0..(1u64 << (8 * n)) {
+                    for k in 0..n {
+                        buf[1 + k] = (x >> (8 * (n - 1 - k))) as u8;
+                    }
+                    l.state(len as u64);
+                    for (ty, e) in eps {
+                        ex.decode(l, space, *ty, *e, &buf[..len]);
+                    }
+                }
+            }
+        }
+    });
+}
+
 /// Every place a header map can occur: (description, type to decode, message bytes).  `map` is the
 /// encoded header map.  Valid filler everywhere else, so the verdict hinges on the map alone.
 pub fn header_carriers(map: &[u8], all: bool) -> Vec<(&'static str, Ty, Vec<u8>)> {
